@@ -186,22 +186,94 @@ Proof.
 Qed.
 
 (* ================================================================ the window, and the trigger rule *)
-Lemma window_eq s r e :
-  cfg_ums s = c_ums e -> 0 <= c_ums e -> window_in_range e (sl_rcnt r) = true ->
-  unresponsiveWindow s r = window_ns e (sl_rcnt r).
+(* the model's bound (Model.MaxInt64) and the monitor's (Monitors.Int64Max) are the same number *)
+Lemma MaxInt64_Int64Max : MaxInt64 = Int64Max.
+Proof. reflexivity. Qed.
+
+(* the monitor's test is "more than window_ns has elapsed", for an int64 clock: from
+   2^64 on the window cannot have elapsed *)
+Lemma window_elapsed_spec e rcnt last now :
+  0 <= last -> now <= Int64Max -> 0 < c_ums e -> 0 <= rcnt ->
+  window_elapsed e rcnt last now = (last <? now - window_ns e rcnt).
 Proof.
-  intros Hu Hn Hw. unfold window_in_range in Hw. apply andb_true_iff in Hw. destruct Hw as [H1 H2].
-  unfold unresponsiveWindow, window_ns. rewrite H1, Hu. f_equal.
-  apply Z.mod_small. split; [|apply Z.ltb_lt, H2].
-  apply Z.mul_nonneg_nonneg; [apply Z.pow_nonneg; lia|exact Hn].
+  intros Hl Hn Hu Hk. unfold window_elapsed.
+  destruct (Z.ltb_spec rcnt 64) as [H|H]; [reflexivity|].
+  symmetry. apply Z.ltb_ge.
+  assert (Hp : 2 ^ 64 <= 2 ^ rcnt) by (apply Z.pow_le_mono_r; lia).
+  change (2 ^ 64) with 18446744073709551616 in Hp.
+  assert (Hm : 2 ^ rcnt <= 2 ^ rcnt * c_ums e) by nia.
+  unfold window_ns, Int64Max in *. lia.
 Qed.
 
-Lemma du_trigger_eq s r e :
-  cfg_ucalls s = c_ucalls e -> cfg_ums s = c_ums e -> 0 <= c_ums e ->
-  window_in_range e (sl_rcnt r) = true ->
-  du_trigger s r = (c_ucalls e <=? (sl_de r + 1) mod W32) && (sl_last r <? b_now s - window_ns e (sl_rcnt r)).
+(* the key fact: the saturating int64 window of the model decides "more than
+   ms * 2^k has elapsed" exactly, for every threshold ms > 0 and every refresh count
+   k >= 0, as long as the clock is an int64 count of nanoseconds.  When the true window
+   exceeds MaxInt64 ns the model answers MaxInt64, and neither can have elapsed,
+   because now - last <= MaxInt64. *)
+Lemma window_model_elapsed s r e :
+  cfg_ums s = c_ums e -> 0 < c_ums e -> 0 <= sl_rcnt r ->
+  0 <= sl_last r -> b_now s <= MaxInt64 ->
+  (sl_last r <? b_now s - unresponsiveWindow s r) = window_elapsed e (sl_rcnt r) (sl_last r) (b_now s).
 Proof.
-  intros H1 H2 H3 H6. unfold du_trigger. rewrite (window_eq s r e H2 H3 H6), H1. reflexivity.
+  intros Hu Hp Hk Hl Hn. unfold unresponsiveWindow, window_elapsed, window_ns. rewrite Hu. cbv zeta.
+  set (k := sl_rcnt r) in *. set (w := 1000000 * c_ums e).
+  assert (HP : 0 < 2 ^ k) by (apply Z.pow_pos_nonneg; lia).
+  assert (Ew : 1000000 * (2 ^ k * c_ums e) = w * 2 ^ k) by (unfold w; ring). rewrite Ew.
+  destruct (Z.ltb_spec k 63) as [H63|H63]; cbn [andb].
+  - assert (E64 : k <? 64 = true) by lia. rewrite E64.
+    destruct (Z.leb_spec w (MaxInt64 / 2 ^ k)) as [Hw|Hw]; [reflexivity|].
+    pose proof (Z.mul_succ_div_gt MaxInt64 (2 ^ k) HP) as Hd.
+    assert (Hbig : MaxInt64 < w * 2 ^ k) by nia.
+    transitivity false; [apply Z.ltb_ge; lia|symmetry; apply Z.ltb_ge; lia].
+  - transitivity false; [apply Z.ltb_ge; lia|]. symmetry.
+    destruct (Z.ltb_spec k 64) as [H64|H64]; [|reflexivity].
+    assert (E2 : 2 ^ k = 2 ^ 63) by (f_equal; lia).
+    change (2 ^ 63) with 9223372036854775808 in E2.
+    apply Z.ltb_ge. unfold MaxInt64, w in *. lia.
+Qed.
+
+(* the same with the configuration in force *)
+Corollary window_model_elapsed_cfg s r c :
+  b_cfg s = Some c -> 0 < c_ums c -> 0 <= sl_rcnt r -> 0 <= sl_last r -> b_now s <= MaxInt64 ->
+  (sl_last r <? b_now s - unresponsiveWindow s r) = window_elapsed c (sl_rcnt r) (sl_last r) (b_now s).
+Proof.
+  intros Hc. apply window_model_elapsed. unfold cfg_ums. rewrite Hc. reflexivity.
+Qed.
+
+(* the model's window is the intended one, saturated at MaxInt64 *)
+Lemma window_min s r e :
+  cfg_ums s = c_ums e -> 0 < c_ums e -> 0 <= sl_rcnt r ->
+  unresponsiveWindow s r = Z.min (window_ns e (sl_rcnt r)) MaxInt64.
+Proof.
+  intros Hu Hn Hk. unfold unresponsiveWindow, window_ns in *. rewrite Hu. cbv zeta.
+  set (k := sl_rcnt r) in *. set (w := 1000000 * c_ums e).
+  assert (HP : 0 < 2 ^ k) by (apply Z.pow_pos_nonneg; lia).
+  assert (Ew : 1000000 * (2 ^ k * c_ums e) = w * 2 ^ k) by (unfold w; ring). rewrite Ew in *.
+  destruct (Z.ltb_spec k 63) as [H63|H63]; cbn [andb].
+  - destruct (Z.leb_spec w (MaxInt64 / 2 ^ k)) as [Hw|Hw].
+    + pose proof (Z.mul_div_le MaxInt64 (2 ^ k) HP) as Hd. assert (w * 2 ^ k <= MaxInt64) by nia. lia.
+    + pose proof (Z.mul_succ_div_gt MaxInt64 (2 ^ k) HP) as Hd. assert (MaxInt64 < w * 2 ^ k) by nia. lia.
+  - assert (Hp : 2 ^ 63 <= 2 ^ k) by (apply Z.pow_le_mono_r; lia).
+    change (2 ^ 63) with 9223372036854775808 in Hp.
+    assert (MaxInt64 < w * 2 ^ k) by (unfold MaxInt64, w in *; nia). lia.
+Qed.
+
+Lemma window_eq s r e :
+  cfg_ums s = c_ums e -> 0 < c_ums e -> 0 <= sl_rcnt r -> window_ns e (sl_rcnt r) <= MaxInt64 ->
+  unresponsiveWindow s r = window_ns e (sl_rcnt r).
+Proof. intros Hu Hn Hk Hw. rewrite (window_min s r e Hu Hn Hk). lia. Qed.
+
+Lemma window_saturated s r e :
+  cfg_ums s = c_ums e -> 0 < c_ums e -> 0 <= sl_rcnt r -> MaxInt64 <= window_ns e (sl_rcnt r) ->
+  unresponsiveWindow s r = MaxInt64.
+Proof. intros Hu Hn Hk Hw. rewrite (window_min s r e Hu Hn Hk). lia. Qed.
+
+Lemma du_trigger_eq s r e :
+  cfg_ucalls s = c_ucalls e -> cfg_ums s = c_ums e -> 0 < c_ums e ->
+  0 <= sl_rcnt r -> 0 <= sl_last r -> b_now s <= MaxInt64 ->
+  du_trigger s r = (c_ucalls e <=? (sl_de r + 1) mod W32) && window_elapsed e (sl_rcnt r) (sl_last r) (b_now s).
+Proof.
+  intros H1 H2 H3 H4 H5 H6. unfold du_trigger. rewrite (window_model_elapsed s r e H2 H3 H4 H5 H6), H1. reflexivity.
 Qed.
 
 (* ================================================================ InvU: detection is enabled by rule *)
